@@ -61,6 +61,10 @@ type (
 	InternalMessageWriter = func(message any, writer *Writer, codec Codec) error
 )
 
+// ActorRefFactory 由 actor 包在初始化时注入：解码内置消息中的 ActorRef 字段（如 OnKill.Killer、OnKilled.Ref）时，
+// 根据地址与路径重建引用。vivid 根包与本包均不能反向依赖 actor 包，因此通过该钩子解耦。
+var ActorRefFactory func(address, path string) (any, error)
+
 type Codec interface {
 	Encode(message any) ([]byte, error)
 	Decode(message []byte) (any, error)
